@@ -144,7 +144,10 @@ def _scale_family(tier, seed):
     for k in ((1, 2) if tier == "quick" else (1, 2, 3, 4)):
         for it, pt in (("A_INT32", "A_FLOAT64"), ("A_FLOAT64", "A_FLOAT64")):
             for boundary in ("closed-closed", "closed-open"):
-                out.append({"k": k, "it": it, "pt": pt, "boundary": boundary})
+                out.append({"k": k, "it": it, "pt": pt, "boundary": boundary, "history": False})
+            if k == 2:
+                # the same object used before for another value: the conversion is a function of its argument only
+                out.append({"k": k, "it": it, "pt": pt, "boundary": "closed-closed", "history": True})
     return out
 
 
@@ -154,7 +157,7 @@ def _scale_family(tier, seed):
                     ScaleLinearCompuMethod.convert_physical_to_internal,
                     ScaleLinearCompuMethod.is_valid_internal_value, ScaleLinearCompuMethod.is_valid_physical_value],
          covers=["valid", "invalid"], assumes=["A-float"], crosscheck=False)
-def scale_linear_method(k, it, pt, boundary):
+def scale_linear_method(k, it, pt, boundary, history):
     """SCALE-LINEAR: value of the first scale whose interval contains x; valid iff some interval contains x; a monotone
     continuous method can always encode and converts back"""
     bounds = [number(f"b{i}", it) for i in range(k + 1)]
@@ -182,6 +185,11 @@ def scale_linear_method(k, it, pt, boundary):
                     (x < bounds[i + 1])) for i in range(k)]
     spec_valid = H.Or(inside)
     H.check("C07:internal-validity-is-membership-in-some-scale", H.eq(cm.is_valid_internal_value(x), spec_valid))
+    if history:
+        try:
+            cm.convert_internal_to_physical(number("x_before", it))
+        except DecodeError:
+            pass
     try:
         y = cm.convert_internal_to_physical(x)
     except DecodeError:
